@@ -16,19 +16,27 @@ status_file = V / "seeded" / "STATUS.json"
 status = json.loads(status_file.read_text()) if status_file.exists() else {}
 for d in sorted((V / "seeded").glob("C*/*/")):
     pid, n = d.parent.name, d.name
-    if args and pid not in args:
+    if args and pid not in args and f"{pid}/{n}" not in args:
         continue
     if not (d / "patch.diff").exists():
         continue
     r = subprocess.run([str(V / "tools" / "seed_verify.sh"), str(d), pid, "--no-suite"], capture_output=True, text=True)
     txt = r.stdout
-    ex = re.search(r"check_exit=(\d+) demo_clean=(\d+) demo_patched=(\d+)", txt)
+    ex = re.search(r"check_exit=(\d+) demo_clean=(\d+|-) demo_patched=(\d+|-)", txt)
     kinds = sorted(set(re.findall(r"replays/C\d\d/(.+?)-[0-9a-f]{16}\.json", txt)))
     if not ex:
         print(f"{pid}/{n}: ?? {txt[-300:]}")
         continue
-    rec = {"check_exit": int(ex.group(1)), "demo_clean": int(ex.group(2)), "demo_patched": int(ex.group(3)), "kinds": kinds}
     status = json.loads(status_file.read_text()) if status_file.exists() else {}   # other instances may run in parallel
+    prev = status.get(f"{pid}/{n}", {})
+    if ex.group(2) == "-":    # SEED_FAST: demonstration results are those of the earlier full verification
+        if "demo_clean" not in prev:
+            print(f"{pid}/{n}: no earlier full verification on record - run without SEED_FAST")
+            continue
+        dc, dp = prev["demo_clean"], prev["demo_patched"]
+    else:
+        dc, dp = int(ex.group(2)), int(ex.group(3))
+    rec = {"check_exit": int(ex.group(1)), "demo_clean": dc, "demo_patched": dp, "kinds": kinds}
     status[f"{pid}/{n}"] = rec
     ok = rec["check_exit"] == 1 and rec["demo_clean"] == 0 and rec["demo_patched"] != 0
     print(f"{pid}/{n}: {'caught' if ok else 'ATTENTION'} {rec}", flush=True)
